@@ -296,7 +296,8 @@ pub fn observer_validation(w: &World, p: usize, ctx: &mut Ctx) {
         }
     };
     let ext = ExternalClientBuilder::new()
-        .crypto_provider(DynProvider::new(Which::Rust, 999))
+        // the observer runs on the provider of the member whose copy it validates (RustCrypto does not implement every suite)
+        .crypto_provider(DynProvider::new(w.parties[p].which, 999))
         .identity_provider(HIdentity { party: 999 })
         .extension_type(ExtensionType::new(CUSTOM_EXT))
         .custom_proposal_types(Some(ProposalType::new(CUSTOM_PROP)))
